@@ -131,7 +131,7 @@ class Enc:
     """encoding options; canonical=True gives the compact canonical encoding"""
 
     def __init__(self, rng, canonical=False, junk=True, indexed=True, list_kinds=('lo', 'la', 'reg'),
-                 opt_kinds=('ixo', 'bym', 'bim', 'unm'), widths=WIDTHS, weird_empty=0.0, special=True):
+                 opt_kinds=('ixo', 'bym', 'bim', 'unm'), widths=WIDTHS, weird_empty=0.0, special=True, strided=0.0):
         self.rng = rng
         self.canonical = canonical
         self.junk = junk and not canonical
@@ -141,6 +141,7 @@ class Enc:
         self.widths = widths
         self.weird_empty = weird_empty
         self.special = special
+        self.strided = strided
         self.decisions = []      # (is_regular, size) per list level, in encoding order
         self.replay = None       # when set: list of decisions to follow (canonical re-encoding keeps the type)
         self.stats = {}
@@ -158,6 +159,10 @@ def junkvals(enc, t, nmax=2):
 
 def t_noopt_none(t):
     return t
+
+
+def junk_leaf(enc, t):
+    return gen_value(enc.rng, t, 3, enc.special)
 
 
 def encode(enc, t, vals, under_option=False):
@@ -183,6 +188,18 @@ def encode_plain(enc, t, vals, under_option):
     rng = enc.rng
     k = t[0]
     if k == 'leaf':
+        if enc.strided and not enc.canonical and len(vals) > 0 and rng.random() < enc.strided:
+            # a strided 1-d view (a column of a table, x[::2], x[::-1]): same value, other physical layout
+            n = len(vals)
+            st = rng.choice([2, 3, -1, -2, 2])
+            pre = rng.randint(0, 2)
+            span = (n - 1) * abs(st) + 1
+            buf = [junk_leaf(enc, t) for _ in range(pre + span + rng.randint(0, 2))]
+            off = pre if st > 0 else pre + span - 1
+            for i, v in enumerate(vals):
+                buf[off + i * st] = v
+            enc.count('nps')
+            return ['nps', t[1], [n], [st], off, buf]
         enc.count('np')
         return ['np', t[1], [len(vals)], list(vals)]
     if k == 'str':
@@ -446,7 +463,7 @@ def nodes(tree, path=()):
 def child_len(node):
     """length of a layout node, computed structurally (None when unknown)"""
     h = node[0]
-    if h == 'np':
+    if h in ('np', 'nps'):
         return node[2][0]
     if h == 'empty':
         return 0
